@@ -33,6 +33,15 @@ def expected_keys(rec):
     keys.add(b"\x03" + pubkey + suffix)
     keys.add(b"\x04" + pubkey + b"\x00" + be4(kind) + suffix)
     for t in tags:
+        # NIP-26: a delegated event may additionally be indexed under its delegator as author (optional, but consistent)
+        if len(t) >= 2 and t[0] == "delegation" and isinstance(t[1], str) and len(t[1]) == 64:
+            try:
+                d = bytes.fromhex(t[1])
+                opt.add(b"\x03" + d + suffix)
+                opt.add(b"\x04" + d + b"\x00" + be4(kind) + suffix)
+            except ValueError:
+                pass
+    for t in tags:
         if len(t) >= 2 and isinstance(t[0], str) and (len(t[0]) == 1 or t[0] in ("expiration", "delegation")):
             val = str(t[1]).encode("utf8", "surrogatepass")
             if len(val) > MAX_TAG_VALUE:
@@ -101,6 +110,9 @@ def universes():
     t["repl"] = make_event("A", 10000, 58, [["t", "a"]], "")
     t["repl_new"] = make_event("A", 10000, 59, [["t", "b"]], "")
     t["del_all"] = make_event("A", 5, 60, [["e", t["dup_tags"]["id"]], ["e", t["nonstr"]["id"]], ["e", t["nul_val"]["id"]]], "")
+    from ..universe import delegation_tag
+    t["delegated"] = make_event("B", 1, 61, [delegation_tag("A", "B", "kind=1"), ["e", "x"]], "delegated")
+    t["del_by_delegator"] = make_event("A", 5, 70, [["e", t["delegated"]["id"]]], "")
     t["same_ts_1"] = make_event("A", 1, 50, [["e", "x"]], "same ts 1")
     t["same_ts_2"] = make_event("B", 1, 50, [["e", "x"]], "same ts 2")
     U["U10"] = t
